@@ -39,3 +39,49 @@ def words (line : String) : List String :=
   (line.trimAscii.toString.splitOn " ").filter (· ≠ "")
 
 end PestModel.Proto
+
+namespace PestModel.Proto
+
+/-- S-expressions over ASCII atoms. -/
+inductive SExp where
+  | atom (s : String)
+  | list (xs : List SExp)
+  deriving Repr, Inhabited
+
+/-- Tokenise: parentheses are tokens, atoms are separated by spaces. -/
+def sexpTokens (s : String) : List String :=
+  let rec go : List Char → List Char → List String → List String
+    | [], cur, acc => (if cur.isEmpty then acc else String.ofList cur.reverse :: acc).reverse
+    | c :: cs, cur, acc =>
+      let flush := if cur.isEmpty then acc else String.ofList cur.reverse :: acc
+      if c = '(' then go cs [] ("(" :: flush)
+      else if c = ')' then go cs [] (")" :: flush)
+      else if c = ' ' ∨ c = '\n' ∨ c = '\r' ∨ c = '\t' then go cs [] flush
+      else go cs (c :: cur) acc
+  go s.toList [] []
+
+/-- Parse a sequence of tokens into S-expressions (stack machine; `none` on imbalance). -/
+def sexpParse (toks : List String) : Option (List SExp) :=
+  let rec go : List String → List (List SExp) → Option (List SExp)
+    | [], [top] => some top.reverse
+    | [], _ => none
+    | t :: ts, stack =>
+      if t = "(" then go ts ([] :: stack)
+      else if t = ")" then
+        match stack with
+        | cur :: parent :: rest => go ts ((SExp.list cur.reverse :: parent) :: rest)
+        | _ => none
+      else
+        match stack with
+        | cur :: rest => go ts ((SExp.atom t :: cur) :: rest)
+        | [] => none
+  go toks [[]]
+
+def hexOrDash (s : String) : Option String :=
+  if s = "-" then some "" else hexToString? s
+
+def toHexOrDash (s : String) : String :=
+  let h := stringToHex s
+  if h.isEmpty then "-" else h
+
+end PestModel.Proto
